@@ -12,8 +12,9 @@
    invariants (both proved over every history), a queued vehicle whose powertrain is known and accepts the plug type it queues
    for (can_use) and which finds that plug free at its turn CANNOT be refused: its update succeeds (exit the queue, check the plug
    out, first charging step or "already full"), and so by the previous theorem it is charging afterwards.  What remains outside
-   the theorem: a vehicle that waits for a plug type its powertrain cannot use (excluded at DispatchStation.enter since fix acfbea2,
-   but ChargeQueueing can also be entered by an instruction directly). *)
+   the theorem: a vehicle that waits for a plug type its powertrain cannot use.  No instruction names ChargeQueueing and the only
+   way into it, the arrival of a DispatchStation vehicle, is refused at dispatch for an unusable plug since fix acfbea2, so the
+   FIFO monitor reports such an overtaking like any other. *)
 From Hive.Base Require Import Prelude.
 From Hive.Model Require Import Types KernelBase SimOps States Step.
 From Hive.Proofs Require Import Queue VehFrame Macro CountInv QueueServe.
